@@ -7,6 +7,7 @@
 mod c01;
 mod c02;
 mod c03;
+mod c04;
 mod c05;
 mod c08;
 mod c09;
@@ -67,6 +68,8 @@ fn main() {
             "C08" => c08::replay(&plan, &mut sum),
             "C05" => c05::replay(&plan, &mut sum),
             "C09" => c09::replay(&plan, &mut sum),
+            "C04" => c04::replay("C04", &plan, &mut sum),
+            "C20" => c04::replay("C20", &plan, &mut sum),
             _ => Err(format!("unknown check {}", check)),
         };
         if let Err(e) = r {
@@ -82,6 +85,8 @@ fn main() {
             "C08" => c08::run_batch(seed, start, count, &tier, budget_ms, &mut sum),
             "C05" => c05::run_batch(seed, start, count, &tier, budget_ms, &mut sum),
             "C09" => c09::run_batch(seed, start, count, &tier, budget_ms, &mut sum),
+            "C04" => c04::run_batch("C04", seed, start, count, &tier, budget_ms, &mut sum),
+            "C20" => c04::run_batch("C20", seed, start, count, &tier, budget_ms, &mut sum),
             _ => {
                 eprintln!("unknown check {}", check);
                 status = 2;
